@@ -79,16 +79,20 @@ def make_replay(pid, o, unit_res, seed):
     safe = ''.join(ch if ch.isalnum() or ch in '._-' else '_' for ch in name)
     path = os.path.join(VERIF, 'replays', '%s-%s.json' % (pid, safe))
     d = drivers()
-    drv = d.get(o['fn'])
+    ent = d.get(o['fn'])
+    if isinstance(ent, str): ent = dict(driver=ent, prefix=None)
+    drv = ent['driver'] if ent else None
     found = None
     tried = None
     if drv:
-        clause = name.replace(o['fn'] + '#BODY', '#BODY')
+        short = name.split('#')[0] + '#'
+        exact = name.replace(o['fn'] + '#BODY', '#BODY')
         for (sd, budget) in ((seed + 1, 60000), (seed + 77, 200000)):
-            tried = search(drv, sd, budget, clause if clause in d.get('_clauses', {}).get(drv, [clause]) else None)
+            # 1. the executable twin of exactly this clause, 2. any twin of the same function
+            tried = search(drv, sd, budget, exact)
             if tried.get('found'): found = tried; break
-            # if the specific clause has no executable twin, accept any failing clause of that function
-            tried2 = search(drv, sd, budget // 4)
+            pref = (ent.get('prefix') or short) + '*'
+            tried2 = search(drv, sd, budget // 2, pref)
             if tried2.get('found'): found = tried2; break
     rec = dict(property=pid, failed_obligation=name, unit=o['unit'], function=o['fn'], kind=o['kind'],
                verifier_output=o['detail'], verus_cmd=unit_res.get('verus_cmd'),
